@@ -18,6 +18,7 @@ import json
 import math
 import os
 import random
+import subprocess
 import sys
 
 # the octree builders use OpenMP; spinning waits on a busy machine cost
@@ -735,11 +736,58 @@ def main():
         'double x9), 1-3 rounds of reorder_particles() with optional motion '
         'in between; distinct = distinct case JSON; non-trivial = at least 3 '
         'particles')
+    if a.replay and a.tier != 'child':
+        # the replayed input may crash the interpreter (a wrong stride makes
+        # c_align_array read outside the index array): run it in a child
+        rc = subprocess.call([sys.executable, os.path.abspath(__file__),
+                              '--replay', a.replay, '--tier', 'child',
+                              '--seed', str(a.seed), '--work', a.work,
+                              '--out', a.out])
+        if rc < 0:
+            print('replayed case still crashes the implementation (signal %d)'
+                  % -rc)
+            sys.exit(1)
+        sys.exit(rc)
     if a.replay:
         rp = json.load(open(a.replay))
         check_cases([rp['case']], R, 0)
         print(json.dumps(R.d['property_failures'], indent=1)[:6000])
         sys.exit(1 if R.d['property_failures'] else 0)
+    if a.tier == 'canary':
+        # small inputs first, in this expendable process
+        rngc = random.Random(a.seed * 31 + 5)
+        cc = [c for c in corpus() if c['cls'] in discover()]
+        for cls in discover():
+            for i in range(6):
+                cc.append(gen_case(rngc, cls))
+        check_cases(cc, R, 300000)
+        R.write(a.out)
+        return
+    trace = os.path.join(a.work, 'c17-canary-trace.json')
+    rc = subprocess.call(
+        [sys.executable, os.path.abspath(__file__), '--tier', 'canary',
+         '--seed', str(a.seed), '--work', a.work,
+         '--out', os.path.join(a.work, 'c17-canary.json')],
+        env=dict(os.environ, C17_TRACE=trace))
+    if rc != 0:
+        # the implementation killed the child: report the input it died on
+        # instead of dying the same way here
+        try:
+            tr = json.load(open(trace))
+            case = tr['case']
+        except Exception:      # noqa
+            raise SystemExit('canary child failed (%s) before any case' % rc)
+        R.prop_fail('C17:%s:crash' % case['cls'], case,
+                    're-ordering this input completes (get_spatially_ordered_'
+                    'indices, reorder_particles, update, neighbour queries)',
+                    'the interpreter running it died with %s'
+                    % ('signal %d' % -rc if rc < 0 else 'exit code %d' % rc))
+        R.case(json.dumps(case, sort_keys=True), True, None)
+        R.d['search'] = {'extra_cases': 0, 'found': 1,
+                         'note': 'main stream not run: it would crash too'}
+        R.write(a.out)
+        return
+    R.count('canary-ok')
     classes = discover()
     R.d['classes_found'] = classes
     for c in classes:
